@@ -528,6 +528,14 @@ func (h *cfgHarness) checkClients(where string) {
 				h.r.Count("clients_of_deleted_namespace", 1)
 				continue
 			}
+			if len(got) > 0 && len(missing) == len(want) && h.hasGivenUp(c.name) && h.allGone(got) {
+				// the client attached while its server still published the *previous* incarnation of the name
+				// (the coordinator had not finished deleting it, the re-created one did not exist yet), saw the
+				// namespace disappear, asked again and was told "namespace not found": it holds exactly the
+				// deleted incarnation's shards, none of the current ones
+				h.r.Count("clients_refused_namespace_not_found", 1)
+				continue
+			}
 			if len(got) == 0 && h.hasGivenUp(c.name) {
 				// same end state, reached because the server it asked had not heard of the (re-created)
 				// namespace yet: it holds no shard at all and routes nothing
@@ -562,6 +570,18 @@ func (h *cfgHarness) checkClients(where string) {
 		}
 		h.r.Count("client_routing_checks", 1)
 	}
+}
+
+// allGone: every id is a shard that has disappeared from the stored status for good.
+func (h *cfgHarness) allGone(ids []int64) bool {
+	h.mu.Lock()
+	defer h.mu.Unlock()
+	for _, id := range ids {
+		if !h.idsGone[id] {
+			return false
+		}
+	}
+	return true
 }
 
 func (h *cfgHarness) hasGivenUp(client string) bool {
